@@ -52,7 +52,37 @@ def run_world(prop, values_or_seed, tier, cfg, fault=None, replay=False):
         viol = Violation(v.invariant, v.detail, v.site)
         ctx.log("violation", v.invariant, v.site)
         del v
+    except Exception as e:
+        # An exception nobody expected.  Raised by harness code it is a harness error; raised
+        # from inside the library (innermost frame in the source tree under test) while the
+        # property module did not anticipate it, the library did something undocumented in an
+        # operation the property says succeeds (or fails differently): that is a violation
+        # with a replay, not a crash of the check.
+        where = _library_frame(e)
+        if where is None:
+            raise
+        viol = Violation("library_raised_unexpected_exception",
+                         {"exception": repr(e)[:300], "raised_in": where, "fault": fault},
+                         "%s@%s" % (type(e).__name__, where.split(":")[-1]))
+        ctx.log("violation", viol.invariant, viol.site)
+        del e
     return ctx, ch, viol
+
+
+def _library_frame(exc):
+    tb = exc.__traceback__
+    last = None
+    while tb is not None:
+        last = tb
+        tb = tb.tb_next
+    if last is None:
+        return None
+    code = last.tb_frame.f_code
+    root = os.path.realpath(src_dir())
+    fn = os.path.realpath(code.co_filename)
+    if not fn.startswith(root + os.sep):
+        return None
+    return "%s:%s" % (os.path.relpath(fn, root), code.co_name)
 
 
 def worker_main(a):
